@@ -154,11 +154,22 @@ def _mk_operand(case):
         return NDCube(np.ones(shape), wcs=lin_wcs(len(shape)), unit=_unit(case["cunit"]))
     if o["kind"] == "nddata":
         return NDData(np.ones(shape), unit=_unit(case["cunit"]))
+    # whole numbers are, by turns, also handed over as numpy unsigned / signed integers of several widths
+    import zlib
+    tk = zlib.crc32(("dtype" + case["key"]).encode()) % 6
+    vals = [float(v) for v in o["vals"]]
+    whole_nonneg = all(v == int(v) and 0 <= v < 200 for v in vals)
+    whole = all(v == int(v) and abs(v) < 2 ** 20 for v in vals)
+    dt = None
+    if whole_nonneg and tk in (0, 1):
+        dt = [np.uint8, np.uint16][tk]
+    elif whole and tk == 2:
+        dt = np.int32
     if o["kind"] == "num":
-        return o["vals"][0]
+        return o["vals"][0] if dt is None else dt(o["vals"][0])
     arr = np.array(o["vals"], dtype=float).reshape(tuple(o["shape"])) if o["shape"] else (float(o["vals"][0]) if o["kind"] != "num" else o["vals"][0])
     if o["kind"] == "arr":
-        return arr
+        return arr if dt is None or not o["shape"] else arr.astype(dt)
     return arr * _unit(o["unit"])
 
 
